@@ -256,17 +256,24 @@ def k1_redex(e) -> bool:
 def k1_disabled():
     """the implementation with exactly the known-unsound instance of one rule switched off:
     NthRoot(NthPower(u, m), n) is left alone when n and m are both even.  Used only to decide
-    whether an observed failure is the recorded finding K1 or something else."""
+    whether an observed failure is the recorded finding K1 or something else: a failure is K1 only if
+    it disappears inside this block AND the even/even redex was actually met there (`hits > 0`) —
+    a failure that merely does not reproduce on a second run is not K1."""
     cls = X.NthRoot
     orig = cls._reduce_nth_root_of_mth_power
 
+    class Seen:
+        hits = 0        # how often the even/even redex was met (and left alone) inside the block
+    seen = Seen()
+
     def patched(self):
         if k1_redex(self):
+            seen.hits += 1
             return None
         return orig(self)
     cls._reduce_nth_root_of_mth_power = patched
     try:
-        yield
+        yield seen
     finally:
         cls._reduce_nth_root_of_mth_power = orig
 
